@@ -3,21 +3,27 @@ import SaModel.Lemmas.C08ZooB
 import SaModel.Lemmas.C08ZooC
 import SaModel.Lemmas.C08ZooD
 import SaModel.Lemmas.C08ZooE
+import SaModel.Lemmas.C08Explore
+import SaModel.Lemmas.C08Loop
+import SaModel.Lemmas.C08NotWalkable
+import SaModel.Lemmas.C08SAgree
 /-
 C08 — tracing yields the documented mapping; from_type and from_samples agree.
 Model: SaModel/Trace/{Tracer,FromSamples,FromType}.lean.  Documented mapping: SaModel/Trace/Mapping.lean (`Spec.mapping`,
-`Spec.fromTypeSpec`).
+`Spec.fromTypeSpec`).  `Agree a b`: both succeed with the same value, or both fail with a Rust error.
 
-Proved for ALL inputs: the overwrite rule on the tracer (`C08_overwrite_replaces`, `C08_overwrite_name_mismatch`,
-`C08_overwrite_unknown_path`) and on the documented mapping (`C08_mapping_overwrite`); `C08_mapping_name` (the traced field
-always carries the traced name); `C08_options_local_*`: the three sample-only options do not occur in the mapping of a
-type, `Option` yields nullable, each flag of the leaf mapping changes precisely its aspect (`…_leaf` lemmas);
-`C08_from_type_leaf_partial`: one exploration pass over a leaf type at any position is the documented leaf mapping.
-Proved by kernel evaluation on the zoo (16 type descriptions — the Lean twins of the derived types the harness compiles
-— × 10 option settings incl. tight budgets and overwrites): `C08_from_type_on_zoo`, `C08_agree_on_zoo`.
-NOT proved in general: `fromType o ty = Spec.fromTypeSpec o ty` for every `ty` (the container cases of the induction and
-the multi-pass invariant "after k passes exactly the first k variant-passes are complete" are missing), hence the
-`_partial` / `_on_zoo` names.  The general statement is checked on the real crate by the `tracety` suite.
+Proved for ALL inputs:
+* the overwrite rule on the tracer (`C08_overwrite_replaces`, `C08_overwrite_name_mismatch`, `C08_overwrite_unknown_path`)
+  and on the documented mapping (`C08_mapping_overwrite`); `C08_mapping_name`; `C08_options_local_*`;
+* `explore_complete_spec`: one pass over any enum-free type from a fresh node is complete and its field is the
+  documented mapping (error iff the type cannot be walked);
+* `C08_pass_invariant`, `C08_complete_iff`, `C08_loop`: the multi-pass loop for enums (after `k` passes the tracer is
+  `after k ty`; complete iff `passes ty ≤ k`; the loop succeeds iff `passes ty ≤ budget`);
+* `C08_from_type`: `Agree (fromType c o ty) (Spec.fromTypeSpec o ty)` for every type and every option record;
+  `C08_from_type_budget`, `C08_from_type_not_walkable`, `C08_from_type_recursive` (depth limit);
+* `C08_agree`: `fromSamples c o (covering ty) = fromType c o ty` for every walkable type with unique field names whose
+  passes fit the budget (enums included).
+Kept as a kernel-evaluated sanity table: `C08_from_type_and_agree_on_zoo` (16 type descriptions × 10 option settings).
 -/
 namespace SaModel.Props.C08
 open SaModel SaModel.Trace SaModel.Trace.Spec SaModel.Lemmas.C08
@@ -282,73 +288,149 @@ theorem C08_options_local_budget (o : Options) (ty : Ty) (h : o.from_type_budget
   · have : passes ty > o.from_type_budget := h
     simp [this, fail, R.isErr]
 
-/-! ### one exploration pass over a leaf type is the documented leaf mapping -/
+/-! ### one exploration pass over an enum-free type is the documented mapping -/
 
-/-- leaf types -/
-def isLeafTy : Ty → Bool
-  | .unit | .bool | .int _ | .f32 | .f64 | .char | .string | .bytes | .unitStruct _ => true
-  | _ => false
+/-- `explore_complete_spec`: for every enum-free type description `ty` (leaves, `Option`, `Vec`, tuples / arrays, structs
+incl. newtype / tuple / unit structs, maps) at ANY position (name, path, nullable flag) and under ANY options
+(overwrites included): when the type can be walked (no container beyond the depth limit, no map under `map_as_struct`),
+one pass of the derived `Deserialize` from a fresh node leaves a COMPLETE tracer whose field is the documented mapping
+(both succeed with the same field, or both are the documented error) and whose paths are the documented paths; when it
+cannot be walked the pass is a (Rust) error. -/
+theorem explore_complete_spec (c : Code) (o : Options) (ty : Ty) (hf : enumFree ty = true) (name path : String)
+    (nl : Bool) :
+    (walkable o path ty = true →
+      ∃ t, explore c o (.unknown name path nl) ty = .ok t ∧ t.is_complete = true ∧
+        Agree (t.to_field o) (mapping o name path nl ty) ∧ t.collect_paths = tyPaths path ty) ∧
+    (walkable o path ty = false → ∃ m, explore c o (.unknown name path nl) ty = .error (.err m)) := by
+  have h := explore_done c o ty name path nl hf
+  exact ⟨fun hw => ⟨_, h.1 hw, done_complete o ty name path nl, done_to_field o ty name path nl,
+    done_paths o ty name path nl⟩, h.2⟩
 
-/-- `C08_from_type_leaf_partial`: at ANY position (name, path, nullable flag) that is not overwritten, one pass of the
-derived `Deserialize` of a leaf type leaves a complete tracer whose field is exactly the documented one.
-Missing for the general theorem `fromType o ty = Spec.fromTypeSpec o ty`: the container cases (the induction over
-`Ty` with the child paths) and the invariant of the multi-pass loop for enums. -/
-theorem C08_from_type_leaf_partial (c : Code) (o : Options) (ty : Ty) (hl : isLeafTy ty = true) (name path : String)
-    (nl : Bool) (h : o.overwrites.find? (fun kv => kv.1 = path) = none) :
-    ∃ t, explore c o (.unknown name path nl) ty = .ok t ∧ t.is_complete = true ∧
-      (match t.to_field o, mapping o name path nl ty with
-       | .ok a, .ok b => a = b
-       | .error (.err _), .error (.err _) => True
-       | _, _ => False) := by
-  have hg : o.get_overwrite path = none := by
-    unfold Options.get_overwrite
-    have : o.overwrites.find? (fun kv => kv.1 == path) = none := by
-      rw [← h]; congr 1
-    rw [this]
-  have key : ∀ (dt : DataType) (tyy : Ty), explore c o (.unknown name path nl) tyy =
-        .ok (.primitive name path (nl || isNull dt) dt none) →
-      (match (Tracer.primitive name path (nl || isNull dt) dt none).to_field o, mapping o name path nl tyy with
-       | .ok a, .ok b => a = b
-       | .error (.err _), .error (.err _) => True
-       | _, _ => False) →
-      ∃ t, explore c o (.unknown name path nl) tyy = .ok t ∧ t.is_complete = true ∧
-      (match t.to_field o, mapping o name path nl tyy with
-       | .ok a, .ok b => a = b
-       | .error (.err _), .error (.err _) => True
-       | _, _ => False) := fun dt tyy h1 h2 => ⟨_, h1, rfl, h2⟩
-  match ty, hl with
-  | .unit, _ =>
-    refine key .null _ rfl ?_
-    simp only [Tracer.to_field, withOverwrite, hg, mapping, overwritten, h, nullField, isNull]
-    cases h1 : o.allow_null_fields <;> simp [fail]
-  | .unitStruct _, _ =>
-    refine key .null _ rfl ?_
-    simp only [Tracer.to_field, withOverwrite, hg, mapping, overwritten, h, nullField, isNull]
-    cases h1 : o.allow_null_fields <;> simp [fail]
-  | .bool, _ =>
-    refine key .boolean _ rfl ?_
-    simp [Tracer.to_field, withOverwrite, hg, mapping, overwritten, h, isNull, isLargeUtf8, isUtf8]
-  | .int t, _ =>
-    refine key (intDataType t) _ rfl ?_
-    cases t <;> simp [Tracer.to_field, withOverwrite, hg, mapping, overwritten, h, isNull, isLargeUtf8, isUtf8, intDataType]
-  | .f32, _ =>
-    refine key .float32 _ rfl ?_
-    simp [Tracer.to_field, withOverwrite, hg, mapping, overwritten, h, isNull, isLargeUtf8, isUtf8]
-  | .f64, _ =>
-    refine key .float64 _ rfl ?_
-    simp [Tracer.to_field, withOverwrite, hg, mapping, overwritten, h, isNull, isLargeUtf8, isUtf8]
-  | .char, _ =>
-    refine key .uint32 _ rfl ?_
-    simp [Tracer.to_field, withOverwrite, hg, mapping, overwritten, h, isNull, isLargeUtf8, isUtf8]
-  | .bytes, _ =>
-    refine key .largeBinary _ rfl ?_
-    simp [Tracer.to_field, withOverwrite, hg, mapping, overwritten, h, isNull, isLargeUtf8, isUtf8]
-  | .string, _ =>
-    refine key o.string_type _ rfl ?_
-    simp only [Tracer.to_field, withOverwrite, hg, mapping, overwritten, h, stringField, Options.string_type,
-      default_dictionary_field]
-    by_cases h1 : o.string_as_large_utf8 = true <;> by_cases h2 : o.string_dictionary_encoding = true <;>
-      simp [h1, h2, isNull, isLargeUtf8, isUtf8]
+/-- non-vacuity: an enum-free type with every container kind that is walkable under the default options (and one that
+is not: a map under `map_as_struct`) -/
+example :
+    let ty : Ty := .struct "S" (.cons "a" (.option (.vec .string)) (.cons "t" (.tuple (.cons (.int .u8) (.cons .bool .nil)))
+      (.cons "n" (.newtypeStruct "N" (.tupleStruct "T" (.cons .f32 .nil))) (.cons "u" (.unitStruct "U") .nil))))
+    enumFree ty = true ∧ walkable {} "$" ty = true ∧
+    enumFree (.map .string ty) = true ∧ walkable {} "$" (.map .string ty) = false ∧
+    walkable { map_as_struct := false } "$" (.map .string ty) = true := by decide
+
+/-! ### enums: the multi-pass loop -/
+
+/-- `C08_pass_invariant`: the loop invariant of `Tracer::from_type`.  `after o n p nl k ty` (SaModel/Lemmas/C08After.lean)
+is the tracer after `k` passes, written down from the type: a fresh node for `k = 0`; for an enum node that has spent `b`
+passes the first variants are complete, one variant is partially explored with what is left of `b`, the rest is fresh
+(variant `i` is handed `b - Σ_{j<i} passes(payload j)` passes).  For EVERY type that can be walked (enums with all four
+variant kinds, nested enums included), at every position, a pass over the tracer of `k` passes is the tracer of `k + 1`
+passes: the pass explores the first incomplete variant of every enum node it meets, variant 0 again when all are
+complete (which changes nothing). -/
+theorem C08_pass_invariant (c : Code) (o : Options) (ty : Ty) (n p : String) (nl : Bool) (k : Nat)
+    (hw : walkable o p ty = true) :
+    explore c o (after o n p nl k ty) ty = .ok (after o n p nl (k + 1) ty) :=
+  explore_step c o ty n p nl k hw
+
+/-- the tracer is complete exactly from pass `passes ty` on (one pass per enum variant, sums over nested enums, maximum
+over siblings), and then it is the complete tracer `done` whose field is the documented mapping -/
+theorem C08_complete_iff (o : Options) (ty : Ty) (n p : String) (nl : Bool) (k : Nat) (hw : walkable o p ty = true) :
+    (after o n p nl k ty).is_complete = decide (passes ty ≤ k) ∧
+    (passes ty ≤ k → after o n p nl k ty = done o n p nl ty ∧
+      Agree ((after o n p nl k ty).to_field o) (mapping o n p nl ty)) := by
+  refine ⟨after_complete_iff o ty n p nl k hw, fun h => ?_⟩
+  have hpos := passes_pos o ty p hw
+  obtain ⟨k', rfl⟩ : ∃ k', k = k' + 1 := ⟨k - 1, by omega⟩
+  rw [after_done o ty n p nl k' hw h]
+  exact ⟨rfl, done_to_field o ty n p nl⟩
+
+/-- the loop with `b` passes left after `k` passes: the complete tracer when the budget suffices, the documented budget
+error otherwise -/
+theorem C08_loop (c : Code) (o : Options) (ty : Ty) (hw : walkable o "$" ty = true) (b k : Nat) :
+    fromTypeLoop c o ty b (after o "$" "$" false k ty) =
+      if passes ty ≤ k + b then .ok (done o "$" "$" false ty)
+      else fail "Could not determine schema from the type after {budget} iterations" :=
+  loop_after c o ty "$" "$" false hw b k
+
+/-- `C08_from_type`: for EVERY type description and ALL options (budget, overwrites, every flag), `from_type` is the
+documented result `Spec.fromTypeSpec`: the same fields, or a (Rust) error on both sides — the type cannot be walked
+(a container beyond the depth limit, a map under `map_as_struct`, an enum without variants), budget too small, unknown
+overwrite path, overwrite with a wrong name, null-only field, root not a non-nullable struct, more than 128 variants.
+The model never panics on this entry point. -/
+theorem C08_from_type (c : Code) (o : Options) (ty : Ty) : Agree (fromType c o ty) (fromTypeSpec o ty) :=
+  fromType_spec c o ty
+
+/-- a type that cannot be walked: `from_type` is an error whatever the budget (the passes before the failing one leave
+an incomplete tracer; `Conf`, SaModel/Lemmas/C08Conf.lean, is the invariant) -/
+theorem C08_from_type_not_walkable (c : Code) (o : Options) (ty : Ty) (hw : walkable o "$" ty = false) :
+    ∃ m, fromType c o ty = .error (.err m) :=
+  fromType_not_walkable c o ty hw
+
+/-- recursive types hit the depth limit.  The model represents a recursive definition `T = F T` by its unrollings
+`unroll F n base`; when `F` puts its argument at least one path level down (below a struct field, sequence element,
+tuple element, map entry or variant payload: `Descends`), every unrolling deeper than `MAX_TYPE_DEPTH` = 20 is an
+error — and `from_type` of the Rust type behaves like these unrollings, since a pass never looks below the first
+container that is too deep. -/
+theorem C08_from_type_recursive (c : Code) (o : Options) (F : Ty → Ty) (hF : Descends o F) (base : Ty) (n : Nat)
+    (hn : MAX_TYPE_DEPTH < n) : ∃ m, fromType c o (unroll F n base) = .error (.err m) :=
+  fromType_not_walkable c o _ (unroll_not_walkable o F hF base n hn)
+
+/-- non-vacuity: `struct Node { value: i32, next: Option<Box<Node>> }` and
+`enum Tree { Leaf, Node(Box<Tree>, Box<Tree>) }` descend -/
+example (o : Options) :
+    Descends o (fun t => .struct "Node" (.cons "value" (.int .i32) (.cons "next" (.option t) .nil))) ∧
+    Descends o (fun t => .enum "Tree" (.unit "Leaf" (.tuple "Node" (.cons t (.cons t .nil)) .nil))) := by
+  constructor
+  · intro t p h
+    simp only [walkable, walkableFields, Bool.and_eq_true, Bool.not_eq_true', Bool.and_true] at h
+    exact ⟨h.1, childPath p "next", by rw [countDots_child]; omega, h.2.2⟩
+  · intro t p h
+    simp only [walkable, walkableVariants, walkableTys, Bool.and_eq_true, Bool.not_eq_true', Bool.and_true] at h
+    exact ⟨h.1.1, childPath (childPath p "Node") (toString 0), by rw [countDots_child, countDots_child]; omega,
+      h.2.2.1⟩
+
+/-- fewer passes allowed than the type needs: exactly the budget error of the loop -/
+theorem C08_from_type_budget (c : Code) (o : Options) (ty : Ty) (hw : walkable o "$" ty = true)
+    (hb : o.from_type_budget < passes ty) :
+    fromType c o ty = fail "Could not determine schema from the type after {budget} iterations" := by
+  unfold fromType
+  rw [fromTypeTracer_walkable c o ty hw]
+  have : ¬ passes ty ≤ o.from_type_budget := by omega
+  simp only [this, if_false]; rfl
+
+/-- non-vacuity: a walkable type with nested enums that needs 10 passes; it succeeds with budget 10 and not with 9 -/
+example :
+    let o : Options := { allow_null_fields := true, from_type_budget := 10 }
+    let ty : Ty := .struct "S" (.cons "deep" tDeep .nil)
+    walkable o "$" ty = true ∧ passes ty = 10 ∧ (fromType .fixed o ty).isOk = true ∧
+    (fromType .fixed { o with from_type_budget := 9 } ty).isOk = false := by decide +kernel
+
+/-! ### `from_samples` on covering samples = `from_type` -/
+
+/-- `C08_agree`: for EVERY type description (enums with all four variant kinds and nested enums included) that can be
+walked, with unique field names, and all options whose budget covers the passes the type needs: `from_samples` on the
+covering samples of the type (`covering`, SaModel/Trace/FromType.lean: every variant with every covering sample of its
+payload, `Some`, one element per collection, one entry per map) gives exactly what `from_type` gives — the same fields
+or the same error (null-only field, overwrite errors, root not a struct, more than 128 variants).
+The invariant (`absorb_step`, SaModel/Lemmas/C08SStep.lean): absorbing covering sample `m` into `safter m ty` gives
+`safter (m+1) ty`, where after `m = q·L + r` samples an enum node with `L` variants has given `q + 1` payload samples to
+its variants `< r` and `q` to the others; from `width ty` samples on the tracer is `done ty` up to the sample counters
+of struct nodes, which `to_field` does not read.
+The hypotheses are needed: unique names (`from_samples` finds a field by name, a derive by position); walkable (under
+`map_as_struct` `from_type` refuses maps while `from_samples` traces them as structs — the two tracers differ there, as
+documented); the budget (`from_samples` has none); `smallEnums`: at most 2^20 variants per enum, the allocation bound of
+the executable model of `ensure_variant` (finding #29) — Arrow allows 128. -/
+theorem C08_agree (c : Code) (o : Options) (ty : Ty) (hw : walkable o "$" ty = true) (hu : uniqueNames ty = true)
+    (hs : smallEnums ty = true) (hb : passes ty ≤ o.from_type_budget) :
+    fromSamples c o (covering ty) = fromType c o ty :=
+  agree_all c o ty hw hu hs hb
+
+/-- non-vacuity: a struct with every container kind and nested enums with the four variant kinds (10 passes, 18
+covering samples); both tracers succeed on it -/
+example :
+    let o : Options := { map_as_struct := false, allow_null_fields := true }
+    let ty : Ty := .struct "S" (.cons "a" (.option (.vec .string)) (.cons "t" (.tuple (.cons (.int .u8) (.cons .bool .nil)))
+      (.cons "m" (.map .string (.struct "I" (.cons "x" .f32 .nil))) (.cons "deep" tDeep .nil))))
+    walkable o "$" ty = true ∧ uniqueNames ty = true ∧ smallEnums ty = true ∧ passes ty = 10 ∧ width ty = 18 ∧
+      (fromType .fixed o ty).isOk = true := by
+  decide +kernel
 
 /-! ### the zoo: `from_type` = documented mapping = `from_samples` on covering samples (kernel evaluation) -/
 
